@@ -122,7 +122,7 @@ func runC08(c *core.Ctx) {
 		}
 		dt := cv.D.TypeInfo
 		b := dt.Bits
-		sc := newScannerCh(cv, 1+ti%3)
+		sc := newScannerHow(cv, 1+ti%3, ti/3)
 		preludeCheck(c, sc, name, caseID, math.Float64bits(0), math.Float64bits(-0.75), math.Float64bits(0.75),
 			func(raw uint64) bool { return amp(dt, raw) == 0 })
 		chunkNo := 0
@@ -130,12 +130,20 @@ func runC08(c *core.Ctx) {
 		var prevA int64
 		have, first := false, true
 		viol := 0
-		var count, crossChecked int64
+		var count, extra, crossChecked int64
+		extraPass := false
 		process := func(in []uint64) {
 			if viol > 30 {
 				return
 			}
 			out := sc.conv(in)
+			if sc.panicked != "" {
+				if viol < 1000 {
+					c.Violate(name+"|panic", caseID, "the conversion panicked: "+sc.panicked, map[string]any{"fn": name, "buffer_len": len(in), "channels": sc.ch})
+				}
+				viol = 1000
+				return
+			}
 			if chunkNo++; !t.full || chunkNo%8 == 1 {
 				if idx, got := sc.orderCheck(in, out); idx >= 0 {
 					viol++
@@ -150,6 +158,9 @@ func runC08(c *core.Ctx) {
 				overlap := first && i == 0 && t.full && t.lo > 0
 				if !overlap {
 					count++
+					if extraPass {
+						extra++ // the same value again in another block: not a new distinct case
+					}
 				}
 				det := func() map[string]any {
 					return map[string]any{"fn": name, "input": dyn.FloatVal(x), "result_code": dyn.Val{K: dt.Kind, I: int64(out[i]), U: out[i]}, "result_amplitude": da}
@@ -218,6 +229,37 @@ func runC08(c *core.Ctx) {
 			}
 		} else {
 			list := floatList(c.Seed, c.Pick(100000, 1000000), cv.S.Bits == 32)
+			// blocks that never leave [-1,1] (including exactly -1 and +1):
+			// whatever is decided per block (a peak search, a fast path
+			// without clipping) sees a block with nothing to clip
+			var inRange []float64
+			for _, f := range list {
+				if f >= -1 && f <= 1 {
+					inRange = append(inRange, f)
+				}
+			}
+			extraPass = true
+			for _, blk := range [][]float64{{1}, {-1}, {0.5, 1, -1, 0.25, 1, -0.5}, {1, 1, 1}} {
+				buf = buf[:0]
+				for _, f := range blk {
+					buf = append(buf, math.Float64bits(f))
+				}
+				have = false
+				process(buf)
+			}
+			for len(inRange) > 0 {
+				n := min(chunkN, len(inRange))
+				buf = buf[:0]
+				for _, f := range inRange[:n] {
+					buf = append(buf, math.Float64bits(f))
+				}
+				have = len(buf) == chunkN && have
+				process(buf)
+				inRange = inRange[n:]
+				c.Obs("blocks_without_any_sample_outside_full_scale", 1)
+			}
+			have = false
+			extraPass = false
 			for len(list) > 0 {
 				n := min(chunkN, len(list))
 				buf = buf[:0]
@@ -229,7 +271,7 @@ func runC08(c *core.Ctx) {
 			}
 		}
 		c.Eval(count)
-		c.DistinctN(count)
+		c.DistinctN(count - extra)
 		c.Obs("oracle_cross_checked_against_big", crossChecked)
 		kind := "list"
 		if t.full {
